@@ -48,7 +48,7 @@ seq(prop="C05", lean_targets=["TransportVerif.Props.C05"], driver_args=["C05"],
 _RING_COMMON = dict(
     pkg="packetio", run="^TestVerifRing$", component="ring",
     files=["ring_test.go"], wb_files=["ring_wb_test.go"],
-    quick_n=1000, thorough_n=60000,
+    quick_n=1000, thorough_n=60000, search_n=3000,
     variants=[dict(), dict(tags="packetioSizeHardlimit")],
     trusted=LEAN_TB + [
         "hand-written Lean model of packetio/buffer.go (Model/Ring.lean), validated on every run against the real Buffer: results, Count, Size (L1) and head/tail/len(data)/count (L2) after every operation, in the default build and with -tags packetioSizeHardlimit",
@@ -172,5 +172,17 @@ seq(prop="C13", lean_targets=["TransportVerif.Props.C13"], pkg="vnet", run="^Tes
     trusted=LEAN_TB + ["hand-written Lean models Model/Addressing.lean (router assignment; host socket table) validated against Router.AddNet and Net.ListenUDP/ListenPacket/DialUDP/Close/onInboundChunk (answers; lastID, nics, portMap white-box)",
                        "reading of C13 in Spec/Addressing.lean"],
     assumptions=["static addresses supplied by the user are pairwise distinct (the property's quantifier)", "IPv4 only"])
+
+seq(prop="C09", lean_targets=["TransportVerif.Props.C09"], pkg="deadline", run="^TestVerifDeadline$", component="deadline",
+    files=["deadline_h_test.go"], wb_files=["deadline_wb_test.go"], quick_n=8000, thorough_n=300000,
+    nontrivial=["stale-callback", "set-with-callback-outstanding", "set-after-expiry", "set-rearm", "live-callback"],
+    rule="random histories (8..58 steps + settle) of Set(zero | past | now | future), clock advances, timer expiries dispatched by a scripted runtime timer placed in the "
+         "unexported timer field, and callbacks executed later (up to 8 outstanding; thorough: 3% of the cases up to 300). non-trivial = a callback runs after a later Set "
+         "(stale), a Set happens with callbacks outstanding, after expiry, or re-arms a live timer; distinct = hash of the ops text",
+    design_ref="DESIGN.md 7.9", technique="Lean 4 proof: safety invariant of the state/pending/done bookkeeping over all interleavings of Set, expiry dispatch and delayed callbacks; quiescence lemma; differential correspondence with a scripted timer",
+    level_text="PENDING", level_note="PENDING",
+    trusted=LEAN_TB + ["hand-written Lean model Model/Deadline.lean validated against deadline.Deadline with a scripted timer in the unexported field: Done/Err/Deadline and channel identity (L1), state/pending/armed/outstanding (L2)",
+                       "time.AfterFunc semantics as modelled (Stop reports whether it prevented the expiry; Reset re-arms; an expired timer's callback may run arbitrarily late)"],
+    assumptions=["fewer than 256 callbacks outstanding at once (pending is a uint8); the theorem states this bound explicitly"])
 
 ALL = SEQ
